@@ -4,12 +4,12 @@ import json, subprocess
 
 CHECKS = {
  "C01": dict(
-  technique="bounded-exhaustive enumeration of programs (all clause sequences up to a length bound over a clause menu, all head/argument term pairs up to depth 2, all bodies up to a length bound over call/N and control wrappers, all constructions of a list from nested partial lists, a sweep of the head size 0..34/70 against top-level disjunctive bodies) executed on the real interpreter; answer sequences compared with an independent reference SLD machine",
+  technique="bounded-exhaustive enumeration of programs (all clause sequences up to a length bound over a clause menu, all head/argument term pairs up to depth 2, all bodies up to a length bound over call/N and control wrappers, all constructions of a list from nested partial lists, a sweep of the head size 0..34/70 against top-level disjunctive bodies) executed on the real interpreter; answer sequences compared with an independent reference SLD machine; sweeps of the number of clauses per predicate and of discontiguous clause runs",
   text="Every program of the enumerated families is loaded into a fresh real interpreter and every query is run to exhaustion; the complete answer sequence (structurally captured, up to variable renaming), the terminal status, the error term and the output are compared with a textbook goal-stack/choice-point reference machine that shares no design with the promise/continuation VM. Exhaustive within the stated size bounds, smallest first.",
   note="Trusted: the reference machine ref/solve (self-checked against the ISO examples) and the harness printer; programs beyond the size bounds or outside the signature are not covered; cases on which the reference exceeds its step budget are compared on the answer prefix only.",
   design="DESIGN.md §3 C01"),
  "C02": dict(
-  technique="bounded-exhaustive enumeration of term pairs and of list construction recipes on the real interpreter against a reference Robinson unifier; exhaustive enumeration of binding orders on the real persistent environment against a Go map",
+  technique="bounded-exhaustive enumeration of term pairs and of list construction recipes on the real interpreter against a reference Robinson unifier; exhaustive enumeration of binding orders on the real persistent environment against a Go map; asserted heads built by every recipe; one atom through every pair of 9 routes over every Unicode category; occurs check across choice points with controlled variable numbering",
   text="All ordered pairs of terms up to the depth bound are unified both ways through =/2, unify_with_occurs_check/2, subsumes_term/2 and clause heads; success, the answer substitution up to renaming (hence most-generality), identity afterwards and the absence of bindings after failure are compared with the reference. Every abstract list up to the length bound is built through 13 constructor paths and every pair of constructions is unified and compared, also against each literal notation in a clause head. Every insertion order of up to 7/8 variables into the environment is applied and every earlier version re-checked (persistence).",
   note="Trusted: ref/unify and the conservative STO detector (pairs subject to occurs check are skipped for =/2, as ISO leaves them undefined).",
   design="DESIGN.md §3 C02"),
@@ -29,7 +29,7 @@ CHECKS = {
   note="Trusted: ref/order as the property states the order. Results that hinge on the relative order of two distinct unbound variables are not asserted (inconclusive).",
   design="DESIGN.md §3 C08"),
  "C09": dict(
-  technique="explicit-state breadth-first search over database histories: every transition is one update/call executed on the real interpreter (history replayed on a fresh instance) and on a sequential reference database with call-time snapshots; states deduplicated by (model database, last operation) beyond an unmerged depth",
+  technique="explicit-state breadth-first search over database histories: every transition is one update/call executed on the real interpreter (history replayed on a fresh instance) and on a sequential reference database with call-time snapshots; states deduplicated by (model database, last operation) beyond an unmerged depth; a third family over an arity-0 predicate and one term instance asserted several times; abolish/1 under an open retract/1",
   text="From 6+4 initial databases, every history over an alphabet of 38+20 operations (asserta/assertz, retract first/all/by pattern, retractall incl. non-linear and aliased patterns, abolish, calls, and updates issued inside open calls, open clause/2 and open retract/1) is explored to depth 3 (quick) / 4 (thorough); after every transition the operation's answers and the complete listing of the predicates are compared with the reference. Reports states, transitions and depth.",
   note="Trusted: the reference database (ISO 7.5.4 logical update view). One don't-care of the property (whether an open retract/1 succeeds again for a snapshot clause removed meanwhile) is resolved by observing the implementation once per process.",
   design="DESIGN.md §3 C09"),
@@ -44,17 +44,17 @@ CHECKS = {
   note="Trusted: the reference all-solutions algorithm (ISO 8.10.1-3, 7.1.1.4), self-checked against the ISO examples. Group order is deliberately not compared.",
   design="DESIGN.md §3 C11"),
  "C12": dict(
-  technique="stateless model checking of the real iterator code under a hand-written controlled scheduler: interpreter.go and solutions.go are rebuilt with their channel operations and go statement mechanically routed through a shim (go build -overlay), and every call history up to a length bound is executed under all interleavings of consumer and search goroutine(s) within a preemption bound (DFS over schedules, replayable choice lists); breadth-first over histories with a (model state, scheduler-visible state, last call) key; a generator family (38 nondeterministic constructs and built-ins x histories that close early, late or never, with an immediate and a deferred side effect after the generator)",
+  technique="stateless model checking of the real iterator code under a hand-written controlled scheduler: interpreter.go and solutions.go are rebuilt with their channel operations and go statement mechanically routed through a shim (go build -overlay), and every call history up to a length bound is executed under all interleavings of consumer and search goroutine(s) within a preemption bound (DFS over schedules, replayable choice lists); breadth-first over histories with a (model state, scheduler-visible state, last call) key; a generator family (38 nondeterministic constructs and built-ins x histories that close early, late or never, with an immediate and a deferred side effect after the generator); answers with the empty environment; 20 pairs of the same built-in on different data in two interleaved Solutions",
   text="Every history over {Next, Scan, Err, Close} up to length 6 (quick) / 7 (thorough) on 8 kinds of query, and every merge of two short histories on two Solutions of one interpreter, is run on the real code under every schedule with at most 2/3 preemptions. A blocking call is decided exactly (no enabled thread), as are goroutine leaks after Close/exhaustion and goals running after Close; results are compared with a sequential iterator model.",
   note="Trusted: the syntactic rewriter and the shim's model of Go channels (DESIGN.md Appendix B); schedules are explored up to the stated preemption bound; data races are outside a cooperative scheduler's view (the free-running -race pass of C14 covers the iterator bodies too).",
   design="DESIGN.md §3 C12"),
  "C13": dict(
-  technique="bounded-exhaustive enumeration of (looping program, wrapper nesting, call position, cancellation instant) with a deterministic cancellation seam on the real interpreter: the writer given as user_output calls the real cancel() at the k-th byte, k = 0..K plus deep instants (300..40000 iterations into the run), so every poll class of every loop iteration is hit and the machine's stacks are large at the instant of cancellation; oracle = returned error, bounded number of further side effects, follow-up queries (failing, single-answer, enumerated to exhaustion) issued immediately afterwards vs a fresh interpreter; a per-case watchdog turns 'does not return' into a reported violation",
+  technique="bounded-exhaustive enumeration of (looping program, wrapper nesting, call position, cancellation instant) with a deterministic cancellation seam on the real interpreter: the writer given as user_output calls the real cancel() at the k-th byte, k = 0..K plus deep instants (300..40000 iterations into the run), so every poll class of every loop iteration is hit and the machine's stacks are large at the instant of cancellation; oracle = returned error, bounded number of further side effects, follow-up queries (failing, single-answer, enumerated to exhaustion) issued immediately afterwards vs a fresh interpreter; a per-case watchdog turns 'does not return' into a reported violation; cancellation between two answers; cancellation at the k-th poll through a context that counts the engine's looks (answers delivered must equal the uncancelled run's); long single built-in steps against a generous bound",
   text="Every combination of 13 loops, 12 wrappers (nested), 7 call positions (query, second answer, directive, initialization goal, term_expansion body, consulted file via consult/1 and via an ensure_loaded/1 directive) and every cancellation instant up to 12 (quick) / 60 (thorough) bytes of loop output is executed; the pending call must return the context's error, at most 64 bytes may follow cancel(), and the interpreter must then answer follow-up queries (and be able to reload the file) like a fresh one.",
   note="Cancellation instants are enumerated as 'k-th observable side effect', which covers every class 'first poll that sees it' for loops that write; loops that write nothing are cancelled from a timer (instants not controlled). 'Promptly' is decided as a step bound plus a 25 s horizon, never as a latency.",
   design="DESIGN.md §3 C13"),
  "C14": dict(
-  technique="stateless model checking of the real atom table / variable counter under a controlled scheduler (sync and sync/atomic of engine/atom.go, engine/variable.go routed through a shim at build time): all pairs/triples of short thread programs under every interleaving within a preemption bound, each recorded call/return history checked for linearizability with porcupine; two interpreters running small queries under every schedule within a deviation bound; exhaustive mutator x observer isolation matrix; results kept by the caller across the whole goal matrix (every registered procedure x argument shapes) re-rendered after another interpreter ran the same goals; separate free-running -race pass incl. a round in which 8 interpreters run the goal matrix at once",
+  technique="stateless model checking of the real atom table / variable counter under a controlled scheduler (sync and sync/atomic of engine/atom.go, engine/variable.go routed through a shim at build time): all pairs/triples of short thread programs under every interleaving within a preemption bound, each recorded call/return history checked for linearizability with porcupine; two interpreters running small queries under every schedule within a deviation bound; exhaustive mutator x observer isolation matrix; results kept by the caller across the whole goal matrix (every registered procedure x argument shapes) re-rendered after another interpreter ran the same goals; separate free-running -race pass incl. a round in which 8 interpreters run the goal matrix at once; fresh atoms first interned through 13 routes in one interpreter and used in another; hammer round of 8 interpreters writing the same never-seen atoms",
   text="The shared process-wide state (atom table, variable counter) is exercised by every combination of short thread programs forced to collide on names that are new in each execution, under all interleavings at lock/unlock/atomic operations up to 3 (quick) / 6 (thorough) preemptions; linearizability against a sequential map is decided per schedule. Isolation is decided exhaustively for 19 mutators x 23 observers in two stream configurations. Data-race freedom proper is left to the race detector on free-running runs of the same kind of bodies, because a cooperative scheduler cannot see unsynchronised accesses.",
   note="Trusted: shim lock model, porcupine v1.3.0, Go race detector. Memory-model effects weaker than sequential consistency are not explored.",
   design="DESIGN.md §3 C14"),
@@ -64,32 +64,32 @@ CHECKS = {
   note="Trusted: the direct DCG interpreter in ref/solve.go (sequence, alternation, {}, \\+, !, call//N, if-then-else, push-back) and the reference machine underneath.",
   design="DESIGN.md §3 C17"),
  "C18": dict(
-  technique="explicit-state breadth-first search over op/3 histories: every transition is one op/3 call executed on the real interpreter (history replayed on a fresh instance) and on a reference operator table; states = distinct tables; after every transition current_op/3 in all instantiation patterns, reader probes and writer probes are compared with the model",
+  technique="explicit-state breadth-first search over op/3 histories: every transition is one op/3 call executed on the real interpreter (history replayed on a fresh instance) and on a reference operator table; states = distinct tables; after every transition current_op/3 in all instantiation patterns, reader probes and writer probes are compared with the model; sweeps in which an enumeration by current_op/3 stays open while operators are removed; a second root with several user operators; the atom NUL as a name",
   text="All op/3 histories over the alphabet are explored to depth 2 (quick) / 3 (thorough, plus the full alphabet incl. invalid priorities, specifiers and name lists to depth 2); each reached table state is probed completely once: success/error, the whole table through current_op/3 (a failing call must leave it unchanged), current_op/3 in all 8 instantiation patterns for 6 names x all specifiers/priorities, whether prefix/infix/postfix use parses and how it associates, and whether writeq uses operator notation.",
   note="Trusted: ref/optable.go (ISO 8.14.3 / 6.3.4.3). The initial table is read from a fresh instance. Which error a failing op/3 raises is left to C05.",
   design="DESIGN.md §3 C18"),
  "C19": dict(
-  technique="bounded-exhaustive enumeration of input-operation sequences x source texts x stream kinds x eof_action on real streams (files via open/4, host readers incl. one-byte-at-a-time and data-with-EOF readers, and a host source that grows after it reported end of file (feed events interleaved with the operations)), each sequence issued as separate queries and as one conjunction, compared step by step with a reference cursor model; all sequences of output operations to host writer and file",
+  technique="bounded-exhaustive enumeration of input-operation sequences x source texts x stream kinds x eof_action on real streams (files via open/4, host readers incl. one-byte-at-a-time and data-with-EOF readers, and a host source that grows after it reported end of file (feed events interleaved with the operations)), each sequence issued as separate queries and as one conjunction, compared step by step with a reference cursor model; all sequences of output operations to host writer and file; the end-of-stream value as instantiated argument; seekable host readers handed over at an offset; term reads on binary streams",
   text="Every sequence of up to 3 (quick) / 4 (thorough) operations over the input predicates (character, byte, term, peeks incl. failing peeks, end-of-stream tests, position) is run on 18 sources (incl. multi-byte text and texts whose operations straddle byte 4096 of the buffer), 6 stream configurations and binary files; every observed value must be what a single forward cursor yields: peeks leave the cursor, consecutive reads deliver consecutive input, end_of_file then the eof_action, position = bytes consumed. Output sequences must reach the sink completely and in order.",
   note="Trusted: the cursor model in checks/c19.go. Whether read_term/3 consumes the layout character after the end token is resolved by observing the implementation once; the outcome for a text that ends inside a term is not asserted.",
   design="DESIGN.md §3 C19"),
  "C20": dict(
-  technique="bounded-exhaustive enumeration of program texts (all item sequences up to a length bound), fault enumeration (every fault kind at every position, texts ending inside a token or comment, on top of every small earlier load), two-load histories and a run-length sweep, loaded through Exec and consult/1 on the real interpreter and compared with a stage-then-commit reference loader",
+  technique="bounded-exhaustive enumeration of program texts (all item sequences up to a length bound), fault enumeration (every fault kind at every position, texts ending inside a token or comment, on top of every small earlier load), two-load histories and a run-length sweep, loaded through Exec and consult/1 on the real interpreter and compared with a stage-then-commit reference loader; reload of the same file name after a failed load in three naming modes; multifile accumulation with a clause that calls its own predicate",
   text="Every text of up to 4 items out of 15 is loaded; into every text of up to 2 (quick) / 3 (thorough) items each of 6 faults is injected at every position (plus truncation), on top of every small earlier load; every small text is followed by every text of up to 2/3 items; clause runs of every length 1..17 (33) are followed by another predicate and more clauses. After every load: error or not, the output of observing directives and initialization goals, and the ordered answers of every predicate must equal the reference loader's (a failed load changes nothing).",
   note="Trusted: the reference loader in checks/c20.go (stage, fail as a whole, commit with replace / multifile append, then initialization). What a directive sees of its own text's earlier clauses is not asserted.",
   design="DESIGN.md §3 C20"),
  "C15": dict(
-  technique="bounded-exhaustive enumeration on the real API: all strings up to a length bound over an alphabet of syntax-significant runes x double_quotes x placeholder positions compared structurally with the term the literal denotes; complete grid of Go values / count pairs; complete grid of answer values x Scan destination types x carriers with an exact-or-error oracle",
+  technique="bounded-exhaustive enumeration on the real API: all strings up to a length bound over an alphabet of syntax-significant runes x double_quotes x placeholder positions compared structurally with the term the literal denotes; complete grid of Go values / count pairs; complete grid of answer values x Scan destination types x carriers with an exact-or-error oracle; placeholders distributed over the clauses of a text incl. flag directives; scans into same-named struct types in every order",
   text="Every string of up to 2 (quick) / 3 (thorough) runes over 26 syntax-significant characters (plus strings that spell Prolog syntax) is passed for '?' under each double_quotes flag in 6 positions; the term bound must be exactly the char list / code list / atom of those runes. Integers of every width, floats, nested slices, unsupported kinds and every placeholder/argument count pair are covered. For Scan, 49 answer values around every width boundary x 16 destination types x 3 carriers: the stored value is exactly the answer or an error is returned, and destinations never share storage.",
   note="Trusted: the denotation function in checks/c15.go. Invalid UTF-8 strings have no denoting literal and are excluded.",
   design="DESIGN.md §3 C15"),
  "C16": dict(
-  technique="bounded-exhaustive enumeration of call patterns on the real interpreter against relations computed by brute force: every instantiation pattern the modes admit x every combination of bound values (matching and non-matching), answers compared as multisets; infinite / variable-creating modes against the reference machine; chains in which the input list is the answer of one of 12 built-in constructions at every length 0..9 and two calls extend the same list with both answers kept",
+  technique="bounded-exhaustive enumeration of call patterns on the real interpreter against relations computed by brute force: every instantiation pattern the modes admit x every combination of bound values (matching and non-matching), answers compared as multisets; infinite / variable-creating modes against the reference machine; chains in which the input list is the answer of one of 12 built-in constructions at every length 0..9 and two calls extend the same list with both answers kept; values outside the domain must not be answered; identity (not only text) of atoms produced for the first time; calls on fresh interpreters, the NUL atom",
   text="For each of the 17 predicates the complete relation over a finite domain (multi-byte characters, lists, integers near the 64-bit limits) is enumerated by brute force and every admissible call pattern is compared with the matching subset of the relation, each tuple exactly once - which also yields the monotonicity clause of the property.",
   note="Trusted: ref/relations (brute-force definitions in terms of runes and positions); member/select answer once per occurrence.",
   design="DESIGN.md §3 C16"),
  "C05": dict(
-  technique="bounded-exhaustive enumeration of inputs in isolated worker processes with crash containment: all token strings up to a length bound (and all 1- and 2-byte strings) through Exec and Query; every registered procedure (listed through a build-tag-guarded accessor) x all argument-shape tuples; every evaluable functor of eval's dispatch tables x an operand grid; every procedure x 7 kinds of stream argument (closed, binary, at end, ...) in every position; all short conjunctions of database-changing goals under open calls; a write-ahead record attributes a killed process to the exact input, a watchdog turns a call that does not return into a violation",
+  technique="bounded-exhaustive enumeration of inputs in isolated worker processes with crash containment: all token strings up to a length bound (and all 1- and 2-byte strings) through Exec and Query; every registered procedure (listed through a build-tag-guarded accessor) x all argument-shape tuples; every evaluable functor of eval's dispatch tables x an operand grid; every procedure x 7 kinds of stream argument (closed, binary, at end, ...) in every position; all short conjunctions of database-changing goals under open calls; a write-ahead record attributes a killed process to the exact input, a watchdog turns a call that does not return into a violation; all short histories of stream-state operations (standard streams closed, current streams switched) x stream-using probes; loading texts from a file system with inclusion and loading cycles",
   text="Every string of up to 3 (quick) / 4 (thorough) tokens over a 29-token alphabet derived from the lexer, with and without a final full stop, is handed to Exec and Query; every registered procedure is called with every tuple of 14/22 argument shapes (first answer plus a retry) on an interpreter with real streams and on prolog.New(nil, nil); every evaluable functor is applied to every pair of 25 operand shapes under is/2, comparisons and catch/3; every procedure of arity 1..4 gets closed/open, text/binary, input/output streams in every argument position; all conjunctions of up to 3/4 of 20 goals that call, retract, assert and abolish a dynamic predicate while calls of it are open are run to exhaustion. The process must survive (fatal runtime errors are caught by re-running the batch in fine mode), the call must return, errors raised by predicates must be error(Formal, _) with an ISO formal error term, and no error may be the residue of a recovered Go panic.",
   note="Inputs beyond the length/shape bounds are not covered; halt/0,1 is excluded; a Go error for an unparsable text is accepted as the API's syntax error report.",
   design="DESIGN.md §3 C05"),
@@ -99,7 +99,7 @@ CHECKS = {
   note="Trusted: the term builder (atom_codes/2, =../2, placeholders - checked by C15/C16). '$VAR'(N) terms are excluded as the property states.",
   design="DESIGN.md §3 C06"),
  "C07": dict(
-  technique="bounded-exhaustive enumeration of the complete boundary-value grid (all functors x all operand pairs, all depth-2 trees over a reduced grid) on the real evaluator, each case compared with a math/big + IEEE-754 reference model",
+  technique="bounded-exhaustive enumeration of the complete boundary-value grid (all functors x all operand pairs, all depth-2 trees over a reduced grid) on the real evaluator, each case compared with a math/big + IEEE-754 reference model; every power of two with its neighbours; a depth sweep of chains over one shared sub-expression; violations that depend on state left by earlier cases are confirmed by re-running the finding worker's sequence",
   text="Every evaluable functor of the statement is run on the complete cross product of an integer and a float boundary grid (all int/float combinations), all shift counts, all six comparisons, and all depth-2 trees over a reduced grid; each result is compared with an exact reference (math/big integers, IEEE-754 doubles). Exhaustive within the grid: a wrong boundary test, a float detour or a sign slip in any of the per-type helpers shows up as a concrete expression.",
   note="Trusted: the reference arithmetic (math/big, Go float64) and the ISO reading documented in the evidence assumptions; values outside the grid are not covered.",
   design="DESIGN.md §3 C07"),
